@@ -445,6 +445,8 @@ def main(argv):
     sys.path.insert(0, VERIF)
     from symtt import core
     mod = importlib.import_module('harness.' + prop)
+    if tier == 'thorough':
+        importlib.import_module('harness.common').DEEP = 3
     meta = getattr(mod, 'META', {})
     scens = [s for (p, n), s in core.SCENARIOS.items() if p == prop and (only is None or re.search(only, n))]
     tasks = []
